@@ -8,5 +8,5 @@ sed -i "$2" "$D/Lib/ufo2ft/$1"
 if diff -q /repo/Lib/ufo2ft/$1 "$D/Lib/ufo2ft/$1" >/dev/null; then echo "sed expression changed nothing"; rm -rf "$D"; exit 3; fi
 diff /repo/Lib/ufo2ft/$1 "$D/Lib/ufo2ft/$1" || true
 cd "$(dirname "$0")/.."
-REPO_LIB="$D/Lib" timeout 900 ./check $3 --tier ${4:-quick} | grep -v "^classes" | cut -c1-300 || true
+VERIF_EVIDENCE_DIR="$D/ev" REPO_LIB="$D/Lib" timeout 900 ./check $3 --tier ${4:-quick} | grep -v "^classes" | cut -c1-300 || true
 rm -rf "$D"
